@@ -183,7 +183,7 @@ _T1 = ('contract-based deductive verification: pre/postconditions, loop invarian
        '(pyvc) and discharged by z3; ')
 _T3 = 'the parts outside the contracts are decided by bounded native contract evaluation (labelled bounded, never counted as proved)'
 TECHNIQUE = {
-    'C01': _T1 + 'row loop of execute_select against a recursive specification, node classes, operator bodies, row condition assembled by _compile_select (FROM and WHERE); ' + _T3,
+    'C01': _T1 + 'row loop of execute_select against a recursive specification, node classes, operator bodies, row condition assembled by _compile_select (FROM and WHERE), the expression handlers of the compiler (the compiled node is the operator / call node of the statement, folded only by evaluating it; AND / OR operands in written order); ' + _T3,
     'C02': _T1 + 'allocator and aggregator update / initialize / finalize with slot frames, group-key resolution and HAVING in _compile_group_by; the group loop: ' + _T3,
     'C03': _T1 + 'NullType order, nullitemgetter closures, uniquify against a recursive specification, ORDER BY key resolution, DISTINCT/LIMIT pipeline of execute_select; the multi-pass sort: ' + _T3,
     'C04': _T1 + 'type-tag obligations on node classes and column accessors; the compiler selects overloads whose input types are exactly the operand datatypes (binary, BETWEEN, IN, attribute, subscript, coalesce); registry sweep: ' + _T3,
@@ -206,7 +206,7 @@ TECHNIQUE = {
     'C20': 'ownership / frame obligations generated from the ast of /repo for every write site reachable from the execution entry points (structural, decided syntactically, no solver); '
            'deterministic two/three-thread schedules as bounded native stand-in',
 }
-MIN_T1 = {'C01': 75, 'C02': 85, 'C03': 42, 'C04': 80, 'C05': 150, 'C06': 0, 'C07': 88, 'C08': 30, 'C09': 44, 'C10': 34, 'C11': 47, 'C12': 3, 'C13': 24,
+MIN_T1 = {'C01': 95, 'C02': 85, 'C03': 42, 'C04': 80, 'C05': 150, 'C06': 0, 'C07': 88, 'C08': 30, 'C09': 44, 'C10': 34, 'C11': 47, 'C12': 3, 'C13': 24,
           'C14': 18, 'C15': 5, 'C16': 24, 'C17': 5, 'C18': 58, 'C19': 39, 'C20': 100}
 for _p, _c in PROPS.items():
     _c['technique'] = TECHNIQUE[_p]
